@@ -144,7 +144,7 @@ def run(repo: Repo, rep: Report, tier: str) -> None:
     rep.check(writers <= {"__init__", "maximum_length", "implementation_class_uid", "implementation_version_name"}, "items", "association.ServiceUser", f"_user_info written by {sorted(writers)}", "the notification sub-items may only be written by their update-or-append setters", mod=assoc, node=su.node)
     init = su.methods["__init__"]
     src = [norm(s) for s in walk_no_nested(init) if isinstance(s, ast.stmt)]
-    rep.check("self.maximum_length: int = DEFAULT_MAX_LENGTH" in src and "self.implementation_class_uid: UID = assoc.ae.implementation_class_uid" in src, "items", "association.ServiceUser.__init__", "maximum length and implementation class UID always present", "both mandatory sub-items must exist from construction", mod=assoc, node=init)
+    rep.check("self.maximum_length = DEFAULT_MAX_LENGTH" in src and "self.implementation_class_uid = assoc.ae.implementation_class_uid" in src, "items", "association.ServiceUser.__init__", "maximum length and implementation class UID always present", "both mandatory sub-items must exist from construction", mod=assoc, node=init)
     ui = su.getters["user_information"]
     rep.check(any(norm(r.value) == "self._user_info + self.extended_negotiation" for r in walk_no_nested(ui) if isinstance(r, ast.Return)), "items", "association.ServiceUser.user_information", "_user_info + extended_negotiation", "the user information sent is the notification items plus the negotiation items", mod=assoc, node=ui)
     # primitives refuse to be sent without the implementation class uid / with a wrong type list
